@@ -178,6 +178,12 @@ func (core *JApiCore) setCurrentDirective(keyword string, keywordCoords directiv
 		return core.japiError(fmt.Sprintf("%s %q", jerr.UnknownDirective, keyword), keywordCoords.Begin())
 	}
 
+	// A banned directive is rejected wherever it is written (also inside MACRO
+	// bodies and for MACRO / PASTE themselves, which never reach addDirective).
+	if _, ok := core.bannedDirectives[de]; ok {
+		return core.japiError(fmt.Sprintf("%s (%s)", jerr.DirectiveNotAllowed, de.String()), keywordCoords.Begin())
+	}
+
 	d := directive.NewWithCallStack(de, keywordCoords, core.scannersStack.ToDirectiveIncludeTracer())
 	d.Keyword = keyword
 
